@@ -8,7 +8,7 @@
     [sfx] / [sibling_fix]: the generator with / without fixes/C20-nla-sibling-dependencies.diff. *)
 From Coq Require Import List Bool Arith.
 From LC Require Import AnalysisDefs AnalysisSpec AnalysisOwnProofs ExternalDefs ExternalEmitProofs ExternalMarkProofs ExternalProofs ExternalWitness
-                       ExternalMsgProofs ExternalOwnProofs ExternalWitness2 ExternalNlaProofs.
+                       ExternalMsgProofs ExternalOwnProofs ExternalWitness2 ExternalNlaProofs ExternalDepsProofs.
 Import ListNotations.
 
 (** ** The model is C05's *)
@@ -405,12 +405,58 @@ Theorem C20_nla_sibling_dependencies_refuted :
 Proof. exact ExternalWitness.sibling_dependencies_witness. Qed.
 Print Assumptions C20_nla_sibling_dependencies_refuted.
 
+(** The DECLARED dependencies are dependencies of the placeholder equation (this was only compared so far): in the
+    packaged result (AnalysisDefs.package: dummy equations of the constants, API variables, API equations,
+    cleanUpDependencies) the dependencies of an EXTERNAL equation contain every API equation [k] of the analyser variable
+    [a] that the declared dependency [d] (mDependencies of the internal variable [p] it computes) is looked up to. *)
+Theorem C20_declared_dependencies_are_equation_dependencies : forall s ty voi ivs es,
+  let es3 := es ++ map (new_var_eq ivs) (filter (fun p => vtype_eqb (iv_type (geti ivs p)) VConstant) (seq 0 (length ivs))) in
+  let avs := make_avars es3 ivs 0 0 0 in
+  let r := package s ty voi ivs es in
+  forall e, In e (r_eqs r) -> ae_type e = QExternal ->
+  forall p d a k, In p (ie_unknown (gete es3 (ae_pos e))) -> In d (iv_deps (geti ivs p)) ->
+    dep_lookup dependency_fix s ivs avs d = Some a -> In k (av_eqs a) -> In k (all_pos r) -> In k (ae_deps e).
+Proof. exact ExternalDepsProofs.declared_dependencies_are_equation_dependencies. Qed.
+Print Assumptions C20_declared_dependencies_are_equation_dependencies.
+
+(** callback_after_dependencies at full strength, in terms of the DECLARED dependencies: for every packaged result whose
+    equation dependency graph is acyclic, in computeVariables the callback of an external equation [e] stands after the
+    code of every equation [k] — or of an NLA sibling of it, one findRoot computes the system — that computes a declared
+    dependency of a variable of [e] and that the generator wants (not an ODE, not a constant, still to be generated or to
+    be computed again).  The exception is exactly the cyclic case: C20_callback_cyclic_refuted (known finding
+    C20-cyclic-declared-dependency); initialiseVariables is C20_callback_in_initialise_refuted. *)
+Theorem C20_dependencies_computed_before_callback : forall s ty voi ivs es,
+  let es3 := es ++ map (new_var_eq ivs) (filter (fun p => vtype_eqb (iv_type (geti ivs p)) VConstant) (seq 0 (length ivs))) in
+  let avs := make_avars es3 ivs 0 0 0 in
+  let r := package s ty voi ivs es in
+  forall sfx rank rem e l1 l2,
+  acyclic_by r rank ->
+  In e (r_eqs r) -> ae_type e = QExternal ->
+  eq_positions (variables_body r sfx rem) = l1 ++ ae_pos e :: l2 ->
+  forall p d a k ke, In p (ie_unknown (gete es3 (ae_pos e))) -> In d (iv_deps (geti ivs p)) ->
+    dep_lookup dependency_fix s ivs avs d = Some a -> In k (av_eqs a) ->
+    find_aeq r k = Some ke -> dep_wanted r false rem ke = true ->
+    exists q, In q l1 /\ (k = q \/ exists eq, find_aeq r q = Some eq /\ In k (ae_sibs eq)).
+Proof. exact ExternalDepsProofs.dependencies_computed_before_callback. Qed.
+Print Assumptions C20_dependencies_computed_before_callback.
+
+Example C20_dependencies_computed_before_callback_nonvacuous :
+  match result_of (analyse_x true sysA mark_z_dep_y) with
+  | Some r =>
+      map (fun e => (ae_pos e, ae_type e, ae_vars e, ae_deps e)) (r_eqs r) =
+        [(0, QOde, [(0, 1)], []); (1, QAlgebraic, [(0, 3)], [0]); (2, QExternal, [(1, 1)], [1])] /\
+      eq_positions (variables_body r sibling_fix [1; 2]) = [1; 2] /\
+      option_map (dep_wanted r false [1; 2]) (find_aeq r 1) = Some true
+  | None => False
+  end.
+Proof. exact ExternalDepsProofs.declared_dependency_example. Qed.
+Print Assumptions C20_dependencies_computed_before_callback_nonvacuous.
+
 (** the hypothesis NoDup (all_pos r) holds for every result of the analysis *)
 Theorem C20_result_positions_distinct : forall fixed s marks r, xr_outcome (analyse_x fixed s marks) = Done r -> NoDup (all_pos r).
 Proof. exact ExternalProofs.analysis_pos_nodup. Qed.
 Print Assumptions C20_result_positions_distinct.
 
-(* NOT PROVED: the dependencies of an EXTERNAL equation are exactly the equations computing the DECLARED dependencies
-   (make_aeq: the Variable objects recorded at marking time are looked up through their internal variable).  Compared
-   with the library on every run (E= field), and the emission order of every generated program is compared with the
-   model's. *)
+(* NOT PROVED: the converse inclusion (an EXTERNAL equation has NO other dependency than the equations of its declared
+   dependencies) and the link from [package] to every valid analysis result with its internal state spelled out (finish
+   calls package on the requalified internal variables); both compared with the library on every run (E= field). *)
